@@ -1034,6 +1034,31 @@ fn systematic(em: &mut Emitter, thorough: bool) {
     }
 }
 
+/// every truncation point of bodies whose parts carry Content-Length (read_len path): a cut
+/// right after a part's data must still be an error (both tiers)
+fn systematic_cl(em: &mut Emitter) {
+    let mk = |name: &str, content: &[u8], cl: bool| FieldT { name: name.into(), cl, ct: false, content: hex(content) };
+    let bases: Vec<(&str, Vec<FieldT>)> = vec![
+        ("ab", vec![mk("f", b"hello", true), mk("g", b"y", false), mk("n", b"", true)]),
+        ("b", vec![mk("f", b"\r\n--b\r\n", true), mk("g", b"12345", true)]),
+    ];
+    let mut idx = 0usize;
+    for (boundary, truth) in &bases {
+        let full = render(boundary, b"", truth);
+        for t in 0..=full.len() {
+            let kind = if t == full.len() { "valid" } else { "truncated" };
+            let script = if t % 2 == 0 {
+                vec![Ev::Chunk(full[..t].to_vec())]
+            } else {
+                vec![Ev::Chunk(full[..t / 2].to_vec()), Ev::Pending, Ev::Chunk(full[t / 2..t].to_vec())]
+            };
+            let c = Case { boundary: boundary.to_string(), mixed: false, limit: None, script: show_script(&script), consume: None, kind: kind.into(), preamble: String::new(), truth: truth.clone() };
+            emit_case(em, format!("sys-cl-trunc-{idx}"), c);
+            idx += 1;
+        }
+    }
+}
+
 fn main() {
     let args = parse_args();
     let mut em = Emitter::default();
@@ -1046,6 +1071,7 @@ fn main() {
     if args.case.is_none() {
         if args.n.is_none() {
             systematic(&mut em, args.thorough());
+            systematic_cl(&mut em);
         }
         let mut rng = Rng::new(args.seed);
         let n = args.n.unwrap_or(if args.thorough() { 3_000 } else { 400 });
